@@ -139,6 +139,16 @@ def hx(b: bytes) -> str:
     return b.hex() if b else "-"
 
 
+class LibraryMisbehaved(Exception):
+    """raised by harness helpers when the implementation fails something every scenario of a check relies on (a plain session
+    cannot be established, a command writes no frame or two, the client's noise hello is malformed, …): a concrete failing
+    execution, reported as a violation by check.py - unlike a fault of the harness itself (exit 2)"""
+
+    def __init__(self, key, what, detail=None):
+        super().__init__(what)
+        self.key, self.what, self.detail = key, what, detail or {}
+
+
 _debug_counter = [0]
 
 
